@@ -179,10 +179,13 @@ def run_case(case, ctx):
         FS.fail_open = {p: eacces for p in unreadable}
         FS.begin()
         try:
-            args = ["--root", str(root), "lint", "--json"]
+            cwd, gargs = trees.place_lint(rng_for(ctx.seed, "c01place", case["k"]), root)
+            if not gargs and not case["git"] and cwd != str(root):
+                gargs = ["--root", str(root)]
+            args = gargs + ["lint", "--json"]
             if not case["pool"]:
                 args = ["--no-multiprocessing"] + args
-            r = run_cli(args, cwd=str(root))
+            r = run_cli(args, cwd=cwd)
         finally:
             FS.end()
             FS.fail_open = {}
@@ -195,7 +198,7 @@ def run_case(case, ctx):
         except ValueError:
             res.violation("lint-json-unparseable", "lint --json printed no JSON", recipe=recipe, **r.brief())
             return res.out()
-        obs = trees.lint_observed(data, root)
+        obs = trees.lint_observed(data, root, cwd)
         compare(exp, obs, res, recipe, r)
         carriers = sorted(s["carrier"] for f in recipe["files"] for s in f["sources"])
         if len(recipe["files"]) >= 3 and recipe["licenses"]:
